@@ -239,8 +239,31 @@ fn print_exec_filtered(ex: &Exec, out: &mut impl Write) {
     if ex.deadlock { let _ = writeln!(out, "X deadlock"); }
 }
 
+/// robust set: every successful acquire cell CAS of the execution (EMPTY -> owner) as
+/// `thread:cell:number of returns logged before it`; such a cell is taken from that access on, whatever the
+/// acquire finally answers (an acquire that then gets IsLocked leaves its cell populated).  "-" if none.
+fn reservations_of(ex: &Exec) -> String {
+    let is_pop = |r: &Rec| matches!(r, Rec::Acc { file, kind, rd, wr, ok, .. }
+        if file.ends_with("robust_unique_index_set.rs") && kind_name(*kind) == "cas" && *ok && *rd == u64::MAX && *wr != u64::MAX);
+    let line_of = ex.log.iter().find(|r| is_pop(r)).map(|r| if let Rec::Acc { line, .. } = r { *line } else { 0 });
+    let Some(l) = line_of else { return "-".into() };
+    // acquire scans from cell 0: the lowest address CASed at that source line is cell 0
+    let cell0 = ex.log.iter().filter_map(|r| if let Rec::Acc { file, line, addr, .. } = r { if file.ends_with("robust_unique_index_set.rs") && *line == l { Some(*addr) } else { None } } else { None }).min().unwrap();
+    let mut nret = 0usize;
+    let mut v = Vec::new();
+    for r in &ex.log {
+        match r {
+            Rec::Ret { .. } => nret += 1,
+            Rec::Acc { tid, addr, .. } if is_pop(r) => v.push(format!("{}:{}:{}", tid, (addr - cell0) / 8, nret)),
+            _ => {}
+        }
+    }
+    v.join(",")
+}
+
 fn emit(kind: &str, cap: usize, prog: &[Vec<Op>], ex: &Exec, sut: &Sut, out: &mut impl Write) {
-    let _ = writeln!(out, "C {} {} {} {}", kind, cap, prog_str(kind, prog), distance_of(ex));
+    let res = if kind == "ruis" { reservations_of(ex) } else { "-".into() };
+    let _ = writeln!(out, "C {} {} {} {} {}", kind, cap, prog_str(kind, prog), distance_of(ex), res);
     print_exec_filtered(ex, out);
     let sched: Vec<String> = ex.choices.iter().map(|c| c.to_string()).collect();
     let _ = writeln!(out, "S {}", sched.join(","));
